@@ -168,6 +168,7 @@ loop:
 			// This is not a fileSeed, we have nothing to validate
 			continue
 		}
+		verifYield("validate.feed")
 		select {
 		case <-ctx.Done():
 			interrupted = true
